@@ -4,6 +4,7 @@ package bbolt
 
 import (
 	"fmt"
+	"sort"
 	"unsafe"
 
 	"go.etcd.io/bbolt/internal/common"
@@ -445,4 +446,51 @@ func (b *Bucket) VerifNodeTree() string {
 	}
 	walk(b.RootPage())
 	return string(sb)
+}
+
+// VerifBucketTree serialises a bucket with its nested buckets:
+//
+//	K <rootpgid> <sequence> <tree as VerifNodeTree> <n> {<hexname> <K…>}*n
+//
+// all = false: only the sub-buckets the transaction has opened (Bucket.buckets, by name order);
+// all = true: every nested bucket (meant for read transactions, where opening caches nothing).
+func (b *Bucket) VerifBucketTree(all bool) string {
+	const digits = "0123456789abcdef"
+	hx := func(x []byte) string {
+		if len(x) == 0 {
+			return "-"
+		}
+		out := make([]byte, 0, 2*len(x))
+		for _, c := range x {
+			out = append(out, digits[c>>4], digits[c&15])
+		}
+		return string(out)
+	}
+	var names []string
+	if all {
+		_ = b.ForEachBucket(func(k []byte) error {
+			names = append(names, string(k))
+			return nil
+		})
+	} else {
+		for name := range b.buckets {
+			names = append(names, name)
+		}
+		sort.Strings(names)
+	}
+	s := fmt.Sprintf("K %d %d %s%d ", b.RootPage(), b.InBucket.InSequence(), b.VerifNodeTree(), len(names))
+	for _, name := range names {
+		var child *Bucket
+		if all {
+			child = b.Bucket([]byte(name))
+		} else {
+			child = b.buckets[name]
+		}
+		if child == nil {
+			s += hx([]byte(name)) + " K 0 0 L 0 0 0 - 0 0 "
+			continue
+		}
+		s += hx([]byte(name)) + " " + child.VerifBucketTree(all)
+	}
+	return s
 }
